@@ -39,7 +39,13 @@ static unsigned long long NBYTES;
 /* an array of n bytes at byte-misalignment IN.misalign, exactly n bytes long */
 static char *alloc_array(unsigned long long n)
 {
+#ifdef BA_PROBE_FIXED
+	ASSUME(n == BA_PROBE_FIXED);
+	ASSUME(IN.misalign == BA_PROBE_MIS);
+	char *raw = malloc(BA_PROBE_FIXED + BA_PROBE_MIS);
+#else
 	char *raw = malloc(n + IN.misalign);
+#endif
 	ASSUME(raw != 0);
 #ifdef VERIF_NATIVE
 	/* content: the witness bytes repeated (the verifier leaves the array unconstrained) */
